@@ -630,6 +630,17 @@ P("len_filtered_plus_unfiltered", lambda t: (t.df.u[t.df.u > 5] + t.df.u).shape[
 P("len_after_filter_assign", lambda t: t.df[t.df.a > 0].assign(z=1).shape[0])
 P("size_frame_elemwise", lambda t: (t.df[["u", "f"]] * 2).size)
 P("len_concat_parts", lambda t: t.dd.concat([t.df, t.df3]).shape[0])
+# tail / len / size (as LAZY scalars) of an elementwise operation E2 whose row operand E1 itself combines operands with
+# DIFFERENT rows (an unfiltered column with a filtered one): the "same rows" helper has to stop at E1 (round 4, seed C19_7;
+# see also head_of_op_on_misaligned_op / tail_of_fillna_on_misaligned_assign / the eager len_of_op_on_misaligned_op below)
+P("tail_frame_op_of_align", lambda t: ((t.df[["u", "f"]] + t.df[t.df.a > 1][["u", "f"]]) - 1).tail(3, compute=False) if t.lazy else ((t.df[["u", "f"]] + t.df[t.df.a > 1][["u", "f"]]) - 1).tail(3), tags={"head", "align"}, needs_range=True)
+P("len_op_of_align", lambda t: ((t.df[["u", "f"]] + t.df[t.df.a > 1][["u", "f"]]) - 1).shape[0], tags={"align"}, needs_range=True)
+P("size_op_of_align", lambda t: ((t.df.u + t.df.f[t.df.f > 0]) * 2).size, tags={"align"}, needs_range=True)
+# a column selection above assign(z=<series of another, not co-aligned source>) that keeps several of the frame's columns in
+# another order than the frame's: the pruned frame below the alignment must be projected in a deterministic order.
+# Tag "xprocess": always part of C19's across-interpreter comparison of plan names (round 4, seed C19_8)
+P("assign_align_select_reordered", lambda t: t.df.assign(z=t.df2.w)[["u", "c", "a", "z"]], needs_known=True, needs_range=True, tags={"align", "xprocess"})
+P("assign_align_select_new_in_the_middle", lambda t: t.df.assign(z=t.df2.w)[["f", "z", "c", "a"]], needs_known=True, needs_range=True, tags={"align", "xprocess"})
 
 
 # further interplay programs (second seeding round)
